@@ -106,7 +106,7 @@ class Leaf:
 
 class Region:
     def __init__(self, body, start, stops=None, marks=None, presets=None, call_models=None, max_paths=50000,
-                 atom_namer=None, entry_env=None, local_names=None, force_bool_return=False, observe=None):
+                 atom_namer=None, entry_env=None, local_names=None, force_bool_return=False, observe=None, capture=None):
         """start: block index.  stops: {bb: label} blocks ending a path when *entered*.
         marks: {call pattern: label} calls recorded on the path.  presets: {local: value}."""
         self.b = body
@@ -123,6 +123,7 @@ class Region:
         self.local_names = local_names or {}
         self.force_bool_return = force_bool_return
         self.observe = observe or {}
+        self.capture = capture or {}  # {call pattern: (label, arg index)} -> mark "label=<value>"
 
     # ---- naming of unknowns ---------------------------------------------------------------
     def place_name(self, pl):
@@ -619,6 +620,9 @@ class Region:
                     for pat, lab in self.marks.items():
                         if pat in c.names:
                             marks = marks + (lab,)
+                    for pat, (lab, ai) in self.capture.items():
+                        if pat in c.names and ai < len(c.args):
+                            marks = marks + ("%s=%s" % (lab, name_of(self.deref(env, self.operand(env, c.args[ai])))),)
                     if c.target is None:
                         self._leaf(cond, ("diverges", c.primary.split("::")[-1]), None, marks, trace)
                         break
